@@ -582,6 +582,10 @@ func (e *Engine) callFrameShallow(ci ssa.CallInstruction) frameSet {
 		return out
 	}
 	if c.IsInvoke() {
+		if c.Method.Name() == "Read" {
+			// the receiver may be an *io.LimitedReader, whose Read decrements N (see readModel)
+			out.keys["io.LimitedReader.N"] = arrOf(SInt)
+		}
 		ikey := e.ifaceKey(c.Value.Type(), c.Method.Name())
 		if ks, ok := libFrames[ikey]; ok {
 			for k, s := range ks {
@@ -700,6 +704,10 @@ func (e *Engine) rawModifies(ct *Contract, out *frameSet) {
 			if !found {
 				// "$pkg.Type." or "$pkg.Type.field": fields of a struct type of the package
 				parts := strings.Split(strings.TrimSuffix(m[1:], "."), ".")
+				if m == "$io.LimitedReader.N" {
+					out.keys["io.LimitedReader.N"] = arrOf(SInt)
+					found = true
+				}
 				for _, hp := range e.pkgs {
 					if len(parts) >= 2 && hp.Types.Name() == parts[0] {
 						if o := hp.Types.Scope().Lookup(parts[1]); o != nil {
